@@ -199,6 +199,67 @@ pub fn zero_sized_ops<T, N: ArrayLength, const R: usize>() {
     log_is_identity(n);
 }
 
+/// large element types (136 bytes: above a cache line and above any "small array" threshold even for N = 1): block-size computations such
+/// as `64 / size_of::<T>()` degenerate to 0 for them, and same-layout in-place fast paths become applicable
+#[derive(Clone, Debug, PartialEq)]
+pub struct Big {
+    pub tag: u32,
+    pub pad: [u64; 16],
+}
+impl Big {
+    fn new(tag: u32) -> Big { Big { tag, pad: [tag as u64; 16] } }
+    fn ok(&self, tag: u32) -> bool { self.tag == tag && self.pad[0] == tag as u64 && self.pad[15] == tag as u64 }
+}
+impl Default for Big {
+    fn default() -> Big {
+        unsafe { log(ZNEXT); ZNEXT += 1; Big::new(ZNEXT - 1) }
+    }
+}
+pub fn large_elements<T, N: ArrayLength, const R: usize>() {
+    let n = N::USIZE;
+    let form = any_upto(8);
+    kani_cover!(form == 8);
+    kani_cover!(form == 0);
+    let salt = any_u32() & 0xffff;
+    let i = if n > 0 { any_upto(n - 1) } else { 0 };
+    unsafe { ZNEXT = 0 };
+    reset_log();
+    match form {
+        0 => { let a: GenericArray<Big, N> = GenericArray::generate(|k| { log(k as u32); Big::new(salt + k as u32) }); assert!(n == 0 || a[i].ok(salt + i as u32), "generate: result i is not at index i"); }
+        1 => { let a: Box<GenericArray<Big, N>> = Box::<GenericArray<Big, N>>::generate(|k| { log(k as u32); Big::new(salt + k as u32) }); assert!(n == 0 || a[i].ok(salt + i as u32)); }
+        2 => { let a: GenericArray<Big, N> = Default::default(); assert!(n == 0 || a[i].ok(i as u32), "Default: element i is not the i-th default"); }
+        3 => { let a: Box<GenericArray<Big, N>> = GenericArray::default_boxed(); assert!(n == 0 || a[i].ok(i as u32)); }
+        4 => {
+            // same-layout map (Big -> Big)
+            let a: GenericArray<Big, N> = GenericArray::generate(|k| Big::new(salt + k as u32));
+            let m: GenericArray<Big, N> = a.map(|x| { log(x.tag - salt); Big::new(x.tag + 7) });
+            assert!(n == 0 || m[i].ok(salt + i as u32 + 7), "map: f(a[i]) is not at index i");
+        }
+        5 => {
+            let a: GenericArray<Big, N> = GenericArray::generate(|k| Big::new(salt + k as u32));
+            let m: GenericArray<u32, N> = (&a).map(|x| { log(x.tag - salt); x.tag + 7 });
+            assert!(n == 0 || m[i] == salt + i as u32 + 7);
+        }
+        6 => {
+            let a: GenericArray<Big, N> = GenericArray::generate(|k| Big::new(salt + k as u32));
+            let b: GenericArray<Big, N> = GenericArray::generate(|k| Big::new(3 * k as u32));
+            let m: GenericArray<Big, N> = a.zip(b, |x, y| { log(x.tag - salt); Big::new(x.tag + y.tag) });
+            assert!(n == 0 || m[i].ok(salt + 4 * i as u32), "zip: f(a[i], b[i]) is not at index i");
+        }
+        7 => {
+            let a: GenericArray<Big, N> = GenericArray::generate(|k| Big::new(salt + k as u32));
+            let r = a.fold(0u32, |acc, x| { log(x.tag - salt); assert!(acc == x.tag - salt, "fold is not the left fold"); acc + 1 });
+            assert!(r as usize == n);
+        }
+        _ => {
+            let a: GenericArray<Big, N> = GenericArray::generate(|k| { log(k as u32); Big::new(salt + k as u32) });
+            let c = a.clone();
+            assert!(n == 0 || (c[i].ok(salt + i as u32) && a[i].ok(salt + i as u32)), "clone differs from the original");
+        }
+    }
+    log_is_identity(n);
+}
+
 macro_rules! c08_lattice {
     ($body:ident; $($name:ident: $N:ty, $u:literal;)*) => {
         pub mod $body {
@@ -215,6 +276,7 @@ pub mod q {
     c08_lattice! { clone_default; n0: U0, 3; n1: U1, 4; n4: U4, 7; }
     c08_lattice! { zero_sized_generators; n0: U0, 3; n1: U1, 4; n3: U3, 6; }
     c08_lattice! { zero_sized_ops; n0: U0, 3; n1: U1, 4; n3: U3, 6; }
+    c08_lattice! { large_elements; n0: U0, 18; n1: U1, 18; n2: U2, 18; n3: U3, 18; }
 }
 pub mod t {
     c08_lattice! { generate_map_fold; n5: U5, 8; n6: U6, 9; n7: U7, 10; n8: U8, 11; }
@@ -223,4 +285,5 @@ pub mod t {
     c08_lattice! { clone_default; n2: U2, 5; n3: U3, 6; n8: U8, 11; }
     c08_lattice! { zero_sized_generators; n2: U2, 5; n5: U5, 8; n8: U8, 11; }
     c08_lattice! { zero_sized_ops; n2: U2, 5; n5: U5, 8; n8: U8, 11; }
+    c08_lattice! { large_elements; n4: U4, 18; n5: U5, 18; n8: U8, 18; }
 }
